@@ -159,6 +159,9 @@ pub struct Ctx {
     pub strict: bool,
 }
 
+/// Set once a VIOLATION line was printed (the watchdog then reports the verdict instead of `inconclusive`).
+pub static VIOLATION_SEEN: std::sync::atomic::AtomicBool = std::sync::atomic::AtomicBool::new(false);
+
 static SOFT_KNOWN: std::sync::RwLock<Vec<(KnownFinding, String)>> = std::sync::RwLock::new(Vec::new());
 static SOFT_HITS: std::sync::Mutex<BTreeMap<String, u64>> = std::sync::Mutex::new(BTreeMap::new());
 
@@ -357,6 +360,7 @@ impl Ctx {
             return;
         }
         let path = self.write_replay(check, case, f);
+        VIOLATION_SEEN.store(true, std::sync::atomic::Ordering::SeqCst);
         println!("VIOLATION property={} replay={}", self.id, path);
         println!("  check={} signature={}", check, f.sig);
         println!("  {}", f.msg.lines().take(12).collect::<Vec<_>>().join("\n  "));
